@@ -452,7 +452,10 @@ package io
 //@ funcs \(\*Decoder\)\.(read2Digit|read3Digit|read4Digit|readNsec|readTime|ReadTime|readDateTime|ReadDateTime|ReadStringAsBytes|readUnsafeString|readSafeString|ReadUnsafeString|ReadSafeString|ReadString|readUnsafeBytes|readBytes|ReadBytes|ReadUUID|ReadFloat32|ReadFloat64) : template decleaf
 
 //@ func (*Decoder).AddReference
-//@   use decleaf
+//@   prop C04 C02
+//@   nopanic
+//@   requires dec != nil
+//@   modifies dec.refer.ref, dec.refer.ref[*]
 //@   ensures [one_item_in_reference_mode] len(dec.refer.ref) == old(len(dec.refer.ref)) + ite(dec.simple, 0, 1) && dec.simple == old(dec.simple)
 
 //@ func (*Decoder).readStringAsSafeBytes
